@@ -32,10 +32,10 @@ fn platt_body<F: SymFloat>() {
     let c_ref = match &r {
         Ok(_) => 0,
         Err(e) => {
-            // which parameter an error may blame (the *variant* returned for maxiter == 0 is
-            // examined separately in `c04_doc_platt_maxiter_zero_variant`)
+            // which parameter an error may blame; `MaxIterReached` ("platt scaling did not converge") is
+            // an optimiser outcome and never a parameter error (see `c04_doc_platt_maxiter_zero_variant`)
             let truthful = match e {
-                PlattError::MaxIterReached | PlattError::MaxIterZero => maxiter == 0,
+                PlattError::MaxIterZero => maxiter == 0,
                 PlattError::MinStepNegative(x) => !(minstep > F::zero()) && x.to_bits() == minstep.to_f32().unwrap().to_bits(),
                 PlattError::SigmaNegative(x) => !(sigma > F::zero()) && x.to_bits() == sigma.to_f32().unwrap().to_bits(),
                 _ => false,
@@ -65,7 +65,7 @@ fn c04_platt_f32() {
     platt_body::<f32>()
 }
 
-/// DOC-vs-GUARD suspect, isolated: `PlattError` has the variant `MaxIterZero` ("maxiter should be
+/// Former DOC-vs-GUARD finding (fixed in /repo b807a0c, kept as an ordinary check): `PlattError` has the variant `MaxIterZero` ("maxiter should be
 /// larger than zero") for exactly this parameter error; `MaxIterReached` means "platt scaling did
 /// not converge" and is what the optimiser returns after running out of iterations.
 #[kani::proof]
@@ -91,8 +91,8 @@ fn c04_doc_platt_maxiter_zero_variant() {
 //   C      : accept > 0, reject < 0 ("Negative C value"; 0 undocumented)
 //   nu     : accept 0 < nu <= 1, reject nu < 0 or nu > 1 (nu == 0: documented as inside "[0, 1]" but
 //            see `c04_doc_svm_nu_zero`)
-//   c_svr's loss epsilon and nu_svr's C have no documented range: claimed by neither side
-//            (nu_svr's C: see `c04_doc_svm_nu_svr_negative_c`).
+//   nu_svr's C: like every other C (accept > 0, reject < 0; see `c04_doc_svm_nu_svr_negative_c`)
+//   c_svr's loss epsilon has no documented range: claimed by neither side.
 fn svm_code(e: &SvmError) -> u32 {
     match e {
         SvmError::InvalidEps(_) => 1,
@@ -151,7 +151,7 @@ fn svm_body<F: SymFloat>() {
         }
         _ => {
             p = p.nu_svr(a, b);
-            (nu_ok && b.map_or(true, |c| c > zero), nu_bad, None, Some((a, b.unwrap_or(one))))
+            (nu_ok && b.map_or(true, |c| c > zero), nu_bad || b.map_or(false, |c| c < zero), None, Some((a, b.unwrap_or(one))))
         }
     };
     let p_acc = maxiter >= 1 && minstep > zero && sigma > zero;
@@ -174,7 +174,7 @@ fn svm_body<F: SymFloat>() {
             let truthful = match e {
                 SvmError::Platt(_) => !p_acc,
                 SvmError::InvalidEps(x) => !(eps > zero) && x.to_bits() == eps.to_f32().unwrap().to_bits(),
-                SvmError::InvalidC(_) => exp_c.is_some() && !m_acc,
+                SvmError::InvalidC(_) => (exp_c.is_some() && !m_acc) || (mode == 4 && b.map_or(false, |c| !(c > zero))),
                 SvmError::InvalidNu(x) => exp_nu.is_some() && !nu_ok && x.to_bits() == a.to_f32().unwrap().to_bits(),
                 _ => false,
             };
@@ -222,8 +222,9 @@ fn c04_doc_svm_nu_zero() {
     std::mem::forget(p);
 }
 
-/// DOC-vs-GUARD suspect, isolated: a negative C is an error ("Negative C value") when it is set with
-/// `c_svr`/`pos_neg_weights`; the C handed to `nu_svr(nu, Some(c))` is never looked at.
+/// Former DOC-vs-GUARD finding (fixed in /repo 3947bd8, kept as an ordinary check): a negative C is an
+/// error ("Negative C value") when it is set with `c_svr`/`pos_neg_weights`; the C handed to
+/// `nu_svr(nu, Some(c))` was never looked at.
 #[kani::proof]
 #[kani::unwind(5)]
 fn c04_doc_svm_nu_svr_negative_c() {
